@@ -39,6 +39,76 @@ def vcs(B):
     pose_action(B)
 
 
+def attitude_action(B):
+    """operator*(Affine3d, Pose3D) acts on the attitude as the rotation group: Rz*Ry*Rx(returned orientation) = R * Rz*Ry*Rx(orientation),
+    for every proper rotation R as linear part and every result away from gimbal lock.  Three machine-checked links:
+      (1) the returned orientation is rotation3DToEulerAngles applied to M = R * Rz*Ry*Rx(orientation)   [pose_transform.attitude.angles_are_read_off_*]
+      (2) M is a proper rotation whenever R is                                                          [pose_transform.attitude.R_times_attitude_is_a_proper_rotation.*]
+      (3) for EVERY proper rotation matrix with |M20| < 1, Rz*Ry*Rx(rotation3DToEulerAngles(M)) = M        [pose_transform.attitude.R_to_angles_to_R*, the VCs of C10 re-proved here]
+    (1)-(3) give the group action by instantiation; identity-neutrality and 'successive transforms compose' for the attitude are then
+    associativity of the matrix product (R2 (R1 A) = (R2 R1) A), which is not a fact about the code."""
+    import importlib.util
+    sp = importlib.util.spec_from_file_location('c10_b_spec', os.path.join(os.path.dirname(os.path.dirname(os.path.abspath(__file__))), 'C10', 'b_spec.py'))
+    c10 = importlib.util.module_from_spec(sp); sp.loader.exec_module(c10)
+    B.function('rotation3DToEulerAngles', '', 'rotation3DToEulerAngles')
+    B.extract()
+    B.decls['pi'] = 'Real'
+
+    def S(t): return app('f_sin', t)
+    def C(t): return app('f_cos', t)
+    A = [[B.real('RA%d%d' % (i, j)) for j in range(3)] for i in range(3)]
+    T = B.vec('RAT', 3)
+    aff = [A[0][0], A[0][1], A[0][2], T[0], A[1][0], A[1][1], A[1][2], T[1], A[2][0], A[2][1], A[2][2], T[2], '0.0', '0.0', '0.0', '1.0']
+    p = B.vec('rpp', 3)
+    ang = [B.real('a_roll'), B.real('a_pitch'), B.real('a_yaw')]
+    cov = B.vec('rcov', 36)
+    res = B.call('pose_transform', list(aff), B.make('Pose3D', position=list(p), orientation=list(ang), covariance=list(cov)))
+    B.take_obligations()
+    o = B.get(res, 'orientation')
+    for a in ang:
+        B.libm('sin', [a], 'true'); B.libm('cos', [a], 'true')
+    env = {'sx': S(ang[0]), 'cx': C(ang[0]), 'sy': S(ang[1]), 'cy': C(ang[1]), 'sz': S(ang[2]), 'cz': C(ang[2])}
+    import symalg
+    Rt = symalg.rot_zyx()
+    Q = [[Rt[i][j].smt(env) for j in range(3)] for i in range(3)]
+    M = [[add(add(mul(A[i][0], Q[0][j]), mul(A[i][1], Q[1][j])), mul(A[i][2], Q[2][j])) for j in range(3)] for i in range(3)]
+    fp = ['pose_transform', 'rotation3DToEulerAngles', 'between0And2Pi']
+    # (1)
+    e = B.call('rotation3DToEulerAngles', [M[i][j] for i in range(3) for j in range(3)])
+    B.take_obligations()
+    for k, nm in enumerate(('roll', 'pitch', 'yaw')):
+        B.vc('pose_transform.attitude.angles_are_read_off_R_times_attitude.' + nm, app('=', o[k], e[k]), functions=fp, timeout=120)
+    # (2)
+    def dot(u, v):
+        return add(add(mul(u[0], v[0]), mul(u[1], v[1])), mul(u[2], v[2]))
+    colA = lambda j: [A[0][j], A[1][j], A[2][j]]
+    hyp = []
+    for i in range(3):
+        for j in range(i, 3):
+            hyp.append(app('=', dot(colA(i), colA(j)), '1.0' if i == j else '0.0'))
+            hyp.append(app('=', dot(A[i], A[j]), '1.0' if i == j else '0.0'))
+    det3 = lambda X: add(sub(mul(X[0][0], sub(mul(X[1][1], X[2][2]), mul(X[1][2], X[2][1]))), mul(X[0][1], sub(mul(X[1][0], X[2][2]), mul(X[1][2], X[2][0])))),
+                         mul(X[0][2], sub(mul(X[1][0], X[2][1]), mul(X[1][1], X[2][0]))))
+    hyp.append(app('=', det3(A), '1.0'))
+    # Rz*Ry*Rx(orientation) generalised to a matrix of symbols with its own orthonormality and determinant (proved for SmartRotation3D in C10)
+    G = [[B.real('QG%d%d' % (i, j)) for j in range(3)] for i in range(3)]
+    colG = lambda j: [G[0][j], G[1][j], G[2][j]]
+    for i in range(3):
+        for j in range(i, 3):
+            hyp.append(app('=', dot(colG(i), colG(j)), '1.0' if i == j else '0.0'))
+            hyp.append(app('=', dot(G[i], G[j]), '1.0' if i == j else '0.0'))
+    hyp.append(app('=', det3(G), '1.0'))
+    MG = [[add(add(mul(A[i][0], G[0][j]), mul(A[i][1], G[1][j])), mul(A[i][2], G[2][j])) for j in range(3)] for i in range(3)]
+    colM = lambda j: [MG[0][j], MG[1][j], MG[2][j]]
+    for i in range(3):
+        for j in range(i, 3):
+            B.vc('pose_transform.attitude.R_times_attitude_is_a_proper_rotation.columns[%d,%d]' % (i, j), app('=', dot(colM(i), colM(j)), '1.0' if i == j else '0.0'), hyp, functions=['pose_transform'], timeout=120)
+            B.vc('pose_transform.attitude.R_times_attitude_is_a_proper_rotation.rows[%d,%d]' % (i, j), app('=', dot(MG[i], MG[j]), '1.0' if i == j else '0.0'), hyp, functions=['pose_transform'], timeout=120)
+    B.vc('pose_transform.attitude.R_times_attitude_is_a_proper_rotation.det', app('=', det3(MG), '1.0'), hyp, functions=['pose_transform'], timeout=180)
+    # (3)
+    c10.matrix_route(B, c10.make_norm_axioms(B), pre='pose_transform.attitude.')
+
+
 def pose_action(B):
     """operator*(Affine3d, Pose3D): SE(3) action on the position; identity is neutral for position and attitude; composition on the position"""
     def S(t): return app('f_sin', t)
@@ -108,6 +178,7 @@ def pose_action(B):
     for i in range(3):
         B.vc('pose_transform.successive_transforms_compose_on_position[%d]' % i, app('=', B.get(step2, 'position')[i], B.get(direct, 'position')[i]), functions=fp, timeout=120)
     B.take_obligations()
+    attitude_action(B)
     ellipse(B)
 
 
